@@ -308,6 +308,11 @@ pub fn cases(tier: Tier) -> Vec<GCase> {
             );
         }
     }
+    // non-initial states: every named-component case once more after the component was
+    // already applied to the same witnesses (quick: every 7th case)
+    let stride = tier.pick(7, 1);
+    let again: Vec<GCase> = out.iter().filter(|c| !c.g.name.starts_with("general")).step_by(stride).map(|c| { let mut d = c.after_self_call(); d.confirm = true; d }).collect();
+    out.extend(again);
     out
 }
 
